@@ -44,6 +44,33 @@ func HC02_maporder() {
 	rt.Assert("C02.same-response-under-any-map-order", rt.DeepEqual(out1.Choice, out2.Choice))
 }
 
+//verif:bounds C02 HC02_maporder_values: every method, no bias, every criterion value a free real (near-ties inside the methods' own tolerances - 1e-5 in Choquet, 1e-6 in the majority comparison, 1e-8 rounding ties in the ranking - are paths), method parameters fixed numbers, A=3, K=2 (A=2, K=3 for owa and Choquet; A=2 for ELECTRE III): decided under insertion order and under another map order (reverse / sorted / reverse sorted), the two responses must be equal
+//verif:harness HC02_maporder_values mode=REAL reach=answered budget_quick=10m
+func HC02_maporder_values() {
+	method := rt.OneOf("method", Methods...)
+	order := rt.IntRange("order", 1, 3)
+	c := StdChoice{Method: method, CC: "none", AllConsidered: true, Values: 0}
+	if method == "owa" || method == "choquetIntegral" {
+		c.K, c.A = 3, 2
+	}
+	if method == "electreIII" {
+		c.A = 2
+	}
+	dm1 := c.BuildOpt("", true)
+	dm2 := c.BuildOpt("", true)
+	rt.MapOrder(0)
+	out1 := Decide(dm1)
+	rt.MapOrder(order)
+	out2 := Decide(dm2)
+	rt.MapOrder(0)
+	rt.Assert("C02.same-verdict-under-any-map-order", out1.Panicked == out2.Panicked)
+	if out1.Panicked || out2.Panicked {
+		return
+	}
+	rt.Reach("answered")
+	rt.Assert("C02.same-response-under-any-map-order", rt.DeepEqual(out1.Choice, out2.Choice))
+}
+
 //verif:harness HC02_history mode=REAL race=true reach=answered-twice
 func HC02_history() {
 	c := ChooseStd([]string{"criteriaOmission", "fatigue", "criteriaMixing", "criteriaConcealment"})
